@@ -149,10 +149,13 @@ def main(argv=None):
     ap.add_argument('--tier', default=os.environ.get('VERIF_TIER', 'quick'))
     ap.add_argument('--replay')
     ap.add_argument('--update-baseline', action='store_true')
+    ap.add_argument('--shrink-baseline', action='store_true', help='like --update-baseline, but only removes entries (ledger := ledger & discharged now)')
     ap.add_argument('--only', nargs='*')
     ap.add_argument('-j', type=int, default=16)
     ap.add_argument('-v', action='store_true')
     a = ap.parse_args(argv)
+    if a.shrink_baseline:
+        a.update_baseline = True
     prop = a.prop
     seed = int(os.environ.get('VERIF_SEED', '0') or 0)
     t0 = time.time()
@@ -417,12 +420,18 @@ def main(argv=None):
             lean = {'rechecked': False, 'error': str(e)}
 
     if a.update_baseline:
-        ledger_all[prop] = sorted(d for d in discharged if d not in soft)
-        ledger_all[prop + ':bounded'] = sorted([b['obligation'] for b in bounded] + list(soft))
+        new_hard = set(d for d in discharged if d not in soft)
+        new_soft = set([b['obligation'] for b in bounded] + list(soft))
+        if a.shrink_baseline:
+            old_hard, old_soft = set(ledger_all.get(prop, [])), set(ledger_all.get(prop + ':bounded', []))
+            new_hard, new_soft = new_hard & old_hard, new_soft & (old_soft | old_hard)
+        ledger_all = load_json(os.path.join(ROOT, 'baseline_obligations.json'), {})    # re-read: other properties may have been recorded meanwhile
+        ledger_all[prop] = sorted(new_hard)
+        ledger_all[prop + ':bounded'] = sorted(new_soft)
         with open(os.path.join(ROOT, 'baseline_obligations.json'), 'w') as f:
             json.dump(ledger_all, f, indent=1, sort_keys=True)
-        print(f'baseline for {prop}: {len(discharged)} obligations')
-        ledger = set(discharged)
+        print(f'baseline for {prop}: {len(new_hard)} obligations')
+        ledger = set(new_hard)
 
     bledger = set(ledger_all.get(prop + ':bounded', []))
     for full in list(undecided):
